@@ -2829,8 +2829,7 @@ class Recipe:
             raise ValueError("Invalid destinations.")
 
         delta = 0
-        states = 0  # how many well / container states were summed: each was rounded to the internal precision
-        magnitude = 0  # ... and how much of the substance they held in all
+        noise = 0  # what the roundings of the steps can add up to, at worst (in the unit amounts are stored in)
 
         if timeframe not in self.stages.keys():
             raise ValueError("Invalid timeframe")
@@ -2860,20 +2859,25 @@ class Recipe:
                     after_substances += step.frm[1].contents.get(substance, 0)
             after_substances += step.trash.get(substance, 0)
             delta += after_substances - before_substances
+            # A net change of zero comes out as rounding noise of either sign. Step by step: every amount the step changed
+            # was rounded to the internal precision (half a digit each; a single container or well opposite n wells was
+            # changed n times), each time also to the last digit of a float of what the step's objects hold in all.
+            changed = []
             for before, after in ((step.to[0], step.to[1]), (step.frm[0], step.frm[1])):
-                if before is not None and before.name in dest_names:
-                    pairs = zip(before.wells.flatten(), after.wells.flatten()) if isinstance(before, Plate) \
-                        else [(before, after)]
-                    # (only a well that the step changed has been rounded anew)
-                    states += sum(2 for well_before, well_after in pairs
-                                  if well_before.contents.get(substance, 0) != well_after.contents.get(substance, 0))
-            magnitude += abs(before_substances) + abs(after_substances)
+                pairs = [] if before is None else [(before, after)] if isinstance(before, Container) \
+                    else zip(before.wells.flatten(), after.wells.flatten())
+                changed.append(sum(1 for well_before, well_after in pairs
+                                   if well_before.contents.get(substance, 0) != well_after.contents.get(substance, 0)))
+            roundings = 0
+            if step.to[0] is not None and step.to[0].name in dest_names:
+                roundings += changed[0] if changed[0] != 1 else max(changed[1], 1)
+            if step.frm[0] is not None and step.frm[0].name in dest_names and not (
+                    step.to[0] is not None and step.to[0].name == step.frm[0].name):
+                roundings += changed[1] if changed[1] != 1 else max(changed[0], 1)
+            noise += 0.5 * 10 ** -config.internal_precision * roundings + \
+                2.5e-16 * (roundings + 4) * (abs(before_substances) + abs(after_substances))
 
-        # a net change of zero comes out as rounding noise of either sign (of the stored decimals, and of the last digits of
-        # a float when litres of a substance are involved)
-        # (every changed state also carries the last digit of a float of its own size, and in a one-to-many step the
-        # source is debited once per well, rounding the same way each time)
-        if -(states * 10 ** -config.internal_precision + 2.5e-16 * (states + 40) * magnitude) <= delta < 0:
+        if -noise <= delta < 0:
             delta = 0
         if delta < 0:
             raise ValueError(
